@@ -12,6 +12,8 @@
 (*   jar[c][h]   current value of client c's session cookie for host h     *)
 (*               (0 = none)                                                *)
 (*   issued      cookie value n was issued to issued[n] = <<client, host>> *)
+(* A client created with persist_cookies=False keeps no cookie and sends   *)
+(* none.                                                                   *)
 (*   sent        sequence of POSTs [client, host, creds, kind, cookie,     *)
 (*               mode]                                                     *)
 (***************************************************************************)
@@ -21,16 +23,17 @@ Hosts == {"cfg", "svc"}
 Kinds == {"profile", "stmt", "acctinfo", "tax"}
 Modes == {"dry", "skip", "normal"}
 
-Post(st, c, h, creds, kind, sets, mode) ==
-  [jar |-> IF sets[h] THEN [st.jar EXCEPT ![c][h] = st.next] ELSE st.jar,
+\* nop: the clients created with persist_cookies=False - they keep no cookie and send none (the server still issues one)
+Post(st, c, h, creds, kind, sets, mode, nop) ==
+  [jar |-> IF sets[h] /\ c \notin nop THEN [st.jar EXCEPT ![c][h] = st.next] ELSE st.jar,
    issued |-> IF sets[h] THEN Append(st.issued, <<c, h>>) ELSE st.issued,
    next |-> IF sets[h] THEN st.next + 1 ELSE st.next,
    sent |-> Append(st.sent, [client |-> c, host |-> h, creds |-> creds, kind |-> kind, cookie |-> st.jar[c][h], mode |-> mode])]
 
 \* the POSTs of one public call
-Posts(st, c, kind, mode, adv, sets) ==
+Posts(st, c, kind, mode, adv, sets, nop) ==
   IF mode = "dry" THEN st
-  ELSE IF kind = "profile" THEN Post(st, c, "cfg", "anon", "profile", sets, mode)
-  ELSE IF mode = "skip" THEN Post(st, c, "cfg", "user", kind, sets, mode)
-  ELSE Post(Post(st, c, "cfg", "anon", "profile", sets, mode), c, adv, "user", kind, sets, mode)
+  ELSE IF kind = "profile" THEN Post(st, c, "cfg", "anon", "profile", sets, mode, nop)
+  ELSE IF mode = "skip" THEN Post(st, c, "cfg", "user", kind, sets, mode, nop)
+  ELSE Post(Post(st, c, "cfg", "anon", "profile", sets, mode, nop), c, adv, "user", kind, sets, mode, nop)
 =============================================================================
